@@ -92,7 +92,7 @@ def auth(roles, role):
 def oracle(chk, s, info, rotation, impl, desc):
     """C03 on the implementation's own results"""
     succ = []
-    for j, (res, log, store) in enumerate(impl):
+    for j, (res, log, store) in enumerate(x[:3] for x in impl):
         r = res
         if r[0] == 0:
             root_v, tsv, snv, tgv = r[1], r[2], r[3], r[4]
